@@ -664,6 +664,19 @@ def _struct_pack(fmt, *args):
     return struct.pack(fmt, *args)
 
 
+def _struct_unpack(fmt, data):
+    """struct.unpack layer: CPython raises struct.error unless the buffer has exactly calcsize(fmt) bytes; that check is
+    made here explicitly (the buffer length is concrete or one fork), then CrossHair's model does the conversion"""
+    import struct
+    with NoTracing():
+        concrete_fmt = isinstance(fmt, str)
+    if concrete_fmt:
+        need = struct.calcsize(fmt)
+        if len(data) != need:
+            raise struct.error("unpack requires a buffer of %d bytes" % need)
+    return struct.unpack(fmt, data)
+
+
 def _struct_pack_method(self, *args):
     """struct.Struct(fmt).pack(*args) (six.int2byte is Struct('>B').pack): route through CrossHair's struct.pack model."""
     import struct
@@ -693,6 +706,8 @@ def install(INSTALLED, contracts=()):
     import struct
     _PATCH_REGISTRATIONS[struct.pack] = _struct_pack
     INSTALLED["models"].append("struct.pack('<N>s', bytes) = the bytes (padded/cut to N); struct.pack of a big-endian integer format applied to an int the harness composed from bytes returns those bytes (identity int.to_bytes(int.from_bytes(b)) == b)")
+    _PATCH_REGISTRATIONS[struct.unpack] = _struct_unpack
+    INSTALLED["models"].append("struct.unpack: explicit 'buffer has exactly calcsize(fmt) bytes' check (struct.error otherwise) in front of CrossHair's conversion model")
     _PATCH_REGISTRATIONS[struct.Struct.pack] = _struct_pack_method
     INSTALLED["models"].append("struct.Struct.pack (six.int2byte) -> CrossHair's struct.pack model")
     _install_bitops()
